@@ -149,10 +149,16 @@ def _annotation(f, quote=False):
     raise ValueError(k)
 
 
+ENUM_MODULE_SOURCE = "from enum import Enum\n\n\nclass Color(Enum):\n    R = 'r'\n    G = 'g'\n    B = 'b'\n"
+
+
 def render(spec, postponed=True):
     lines = (["from __future__ import annotations"] if postponed else []) + ["from dataclasses import dataclass, field",
              "from typing_extensions import List, Optional, Set, Type, Union", "from enum import Enum",
              "from datetime import datetime", "", "", "class Color(Enum):", "    R = 'r'", "    G = 'g'", "    B = 'b'", "", ""]
+    if spec.get("enum_module"):
+        # the enum lives in a module of its own that holds no mapped class (ENUM_MODULE_SOURCE, written next to the model)
+        lines = lines[:lines.index("class Color(Enum):")] + [f"from {spec['module']}_enum import Color", "", ""]
     # python needs a parent class defined before its child: emit in an order that respects inheritance but is
     # otherwise the (random) declaration order -> many forward references in annotations
     by = {c["name"]: c for c in spec["classes"]}
